@@ -26,11 +26,11 @@ func init() {
 			case "race":
 				return 20000
 			}
-			return 260000
+			return 200000
 		},
 		Run:            c13Run,
 		Floor:          func(tier string) int { return 3000 },
-		Rule:           "signatures with 1..3 graph inputs of rank 1..4 whose dimensions are each fixed / symbolic / unspecified (symbolic non-leading axes included), some inputs shadowed by initializers; identity-like graphs (one Relu per input) so that acceptance is observable as a correct value; supplied sets: a name omitted, permuted insertion order, extra names (also named like a pure initializer), a rank from 0..5, one axis resized to {declared-1, declared+1, 1, 7}. Oracle (Appendix A.12): accepted iff every non-initializer input is present with the declared rank and matching fixed dimensions; on rejection Run returns an error and nil outputs, the operator proxy sees no apply event and no supplied tensor changes; on acceptance every output equals relu(input) and extra tensors change nothing; a supplied value for a shadowed input replaces the initializer. Introspection: InputNames/ParamNames/InputShapes/InputDimSize agree with the declaration and with what Run enforces (dynamic <=> every probed size accepted). Non-trivial = the supplied set deviates from the declaration in exactly one respect or exercises a symbolic/unspecified dimension; distinct = (signature, deviation).",
+		Rule:           "signatures with 1..3 graph inputs of rank 1..4 whose dimensions are each fixed / symbolic / unspecified (symbolic non-leading axes included), some inputs shadowed by initializers; identity-like graphs (one Relu per input) so that acceptance is observable as a correct value; supplied sets: a name omitted, permuted insertion order, extra names (also named like a pure initializer), a rank from 0..5, one axis resized to {declared-1, declared+1, 1, 7}; each supplied set is judged on a freshly loaded model, after one conforming Run, or after conforming Run + rejected empty set + conforming Run on the same Model (acceptance must not depend on earlier calls). Oracle (Appendix A.12): accepted iff every non-initializer input is present with the declared rank and matching fixed dimensions; on rejection Run returns an error and nil outputs, the operator proxy sees no apply event and no supplied tensor changes; on acceptance every output equals relu(input) and extra tensors change nothing; a supplied value for a shadowed input replaces the initializer. Introspection: InputNames/ParamNames/InputShapes/InputDimSize agree with the declaration and with what Run enforces (dynamic <=> every probed size accepted). Non-trivial = the supplied set deviates from the declaration in exactly one respect or exercises a symbolic/unspecified dimension; distinct = (signature, deviation).",
 		RaceInThorough: true,
 		Technique:      "runtime monitoring: acceptance oracle from the declared signature, proxy trace check (no apply before/after a rejection), deep fingerprints of supplied tensors, introspection cross-check",
 		Assumptions:    []string{"element types are not part of the checked signature (the statement speaks of rank and dimensions only)"},
@@ -104,6 +104,10 @@ func c13Run(c *Ctx) {
 			feed[in.name] = r.Tensor(ref.F32, shape, gen.FillSmall, 5)
 		}
 	}
+	conforming := map[string]*ref.T{}
+	for k, v := range feed {
+		conforming[k] = v
+	}
 	deviation := "none"
 	accept := true
 	victim := ins[r.Intn(nIn)]
@@ -173,8 +177,11 @@ func c13Run(c *Ctx) {
 			}
 		}
 	}
+	// earlier calls on the same Model: what Run accepts must not depend on them
+	history := r.Intn(3)
 	sigStr := sigString(ins)
-	c.SetCase("signature %s; supplied %s; deviation: %s; expect accept=%v", sigStr, feedString(feed), deviation, accept)
+	c.SetCase("signature %s; supplied %s; deviation: %s; expect accept=%v; earlier calls on the model: %s", sigStr, feedString(feed), deviation, accept, []string{"none", "one conforming Run", "conforming Run, rejected empty set, conforming Run"}[history])
+	c.Count(fmt.Sprintf("history:%d", history), 1)
 	hasDyn := strings.Contains(sigStr, "?") || strings.Contains(sigStr, "N") || strings.Contains(sigStr, "batch") || strings.Contains(sigStr, "seq")
 	if deviation != "none" || hasDyn {
 		c.Nontrivial(sigStr + "|" + deviation)
@@ -188,6 +195,7 @@ func c13Run(c *Ctx) {
 	supplied := gonnx.Tensors{}
 	before := map[string]mon.Fingerprint{}
 	var res gonnx.Tensors
+	priorEvents := 0
 	o := mon.Capture(nil, func() ([]tensor.Tensor, error) {
 		var err error
 		m, err = gonnx.NewModelFromBytes(bytes)
@@ -195,6 +203,26 @@ func c13Run(c *Ctx) {
 			return nil, fmt.Errorf("load: %w", err)
 		}
 		px = mon.Attach(m)
+		prior := func(f map[string]*ref.T) error {
+			in := gonnx.Tensors{}
+			for k, v := range f {
+				in[k] = mon.ToTensor(v)
+			}
+			_, err := m.Run(in)
+			return err
+		}
+		if history >= 1 {
+			if err := prior(conforming); err != nil {
+				return nil, fmt.Errorf("earlier conforming Run: %w", err)
+			}
+		}
+		if history == 2 {
+			_ = prior(map[string]*ref.T{})
+			if err := prior(conforming); err != nil {
+				return nil, fmt.Errorf("earlier conforming Run after a rejected one: %w", err)
+			}
+		}
+		priorEvents = len(px.Events())
 		for k, v := range feed {
 			supplied[k] = mon.ToTensor(v)
 			before[k] = mon.Fp(supplied[k])
@@ -212,7 +240,7 @@ func c13Run(c *Ctx) {
 		return
 	}
 	applies := 0
-	for _, e := range px.Events() {
+	for _, e := range px.Events()[minInt(priorEvents, len(px.Events())):] {
 		if e.Phase == "apply" {
 			applies++
 		}
@@ -224,7 +252,7 @@ func c13Run(c *Ctx) {
 	}
 	switch {
 	case !accept && o.Kind != mon.Error:
-		c.Violation("signature:accepted-nonconforming-set", "Run accepted a set that violates the declaration (%s)", deviation)
+		c.Violation("signature:accepted-nonconforming-set", "Run accepted a set that violates the declaration (%s; earlier calls on the model: %d)", deviation, history)
 	case !accept:
 		if res != nil {
 			c.Violation("signature:outputs-with-error", "Run returned outputs together with an error")
@@ -233,7 +261,7 @@ func c13Run(c *Ctx) {
 			c.Violation("signature:computed-before-rejecting", "%d apply events before the rejection", applies)
 		}
 	case accept && o.Kind == mon.Error:
-		c.Violation("signature:rejected-conforming-set", "Run rejected a conforming set (%s): %v", deviation, o.Err)
+		c.Violation("signature:rejected-conforming-set", "Run rejected a conforming set (%s; earlier calls: %d): %v", deviation, history, o.Err)
 	default:
 		// outputs must be relu of what was supplied (or of the initializer default)
 		for i, in := range ins {
